@@ -28,6 +28,7 @@ def run(c):
     for i, (cs, conc) in enumerate(cfgs):
         dkvlib.replay(c, cs, n, 80, c.seed * 100 + 50 + i, "Dkv checkpoint replay MemCap=%d L0=%d" % (cs["MemCap"], cs["L0Trigger"]),
                       conc=conc, check_restore=True)
+    dkvlib.trace_arm(c, 40 if q else 500, 150 if q else 300, c.seed + 1000)
     c.assumptions += ["a crash is modelled as abandoning the process: durable state = files saved so far (harness file system, fenced views)",
                       "re-opening uses the newest completed checkpoint of the saved document (what the job does)",
                       "restored copies are opened with a large memtable (dkv's flush queue is process-wide)"]
